@@ -355,7 +355,7 @@ async fn one_config(a: Args, idx: usize, proto: Proto, transport: Transport, use
             }
         }
     }
-    let tinfo: Vec<(u16, u16, String)> = targets.iter().enumerate().map(|(i, t)| (t.idx, t.port, if i % 2 == 1 { "localhost".to_string() } else { "127.0.0.1".to_string() })).collect();
+    let tinfo: Vec<(u16, u16, String)> = targets.iter().enumerate().map(|(i, t)| (t.idx, t.port, if i >= 1 { "localhost".to_string() } else { "127.0.0.1".to_string() })).collect();
     let k_apps = *rng.pick(&[1usize, 4, if a.thorough { 16 } else { 6 }]);
     let sizes = [HDR, 64, 512, 1200, 1472, 2000, 2048, 4096, 16000, 32000];
     let per_app = if a.thorough { 60 } else { 24 };
